@@ -125,22 +125,15 @@ Definition k_arg_path_one (body : list arg) (ia : N * bytes) : bool :=
   | _ => false
   end.
 Definition k_arg_path (r : rule) (m : msg) : bool := existsb (k_arg_path_one (m_body m)) (r_arg_paths r).
-(* the body is a single struct argument and the rule has argN / argNpath keys *)
+(* the body is a single struct argument and the rule has argN / argNpath / arg0namespace keys *)
+Definition has_arg0ns (r : rule) : bool := match r_arg0ns r with Some _ => true | None => false end.
 Definition k_sole_struct (r : rule) (m : msg) : bool :=
-  has_args r && match m_body m with [AStructSU _ _] => true | _ => false end.
-(* arg0namespace and a first argument that is not a STRING *)
-Definition k_arg0ns_untyped (r : rule) (m : msg) : bool :=
-  match r_arg0ns r, m_body m with
-  | Some _, AStr _ :: _ => false
-  | Some _, _ :: _ => true
-  | _, _ => false
-  end.
+  (has_args r || has_arg0ns r) && match m_body m with [AStructSU _ _] => true | _ => false end.
 
 Definition known_C21 (r : rule) (m : msg) : bool :=
-  k_arg_path r m || k_sole_struct r m || k_arg0ns_untyped r m.
+  k_arg_path r m || k_sole_struct r m.
 
 Definition class_of (r : rule) (m : msg) : bytes :=
   if k_arg_path r m then B "arg_path_rules"
   else if k_sole_struct r m then B "sole_struct_flattened"
-  else if k_arg0ns_untyped r m then B "arg0ns_untyped"
   else dash.
